@@ -1,7 +1,7 @@
 """Shared harness code of the M-Res family (C04, C08, C17): recording results, object-graph builder,
 canonicalisation and generators.  Shapes / calls are S-expression trees, see lean/TTV/Drv/Res.lean:
 
-shape : [sink f] f in py26/py27/twisted/ext | [tt B] | [text B] | [tbt] | [etod s] | [deco s] | [tagger new gone s]
+shape : [sink f] f in py26/py27/twisted/ext | [tt B] | [text B] | [tbt] | [etod s] | [deco s] | [tagger new gone s] | [tagger new gone s [container shared]] (realisation hint, Graph.tagger_args)
         | [sff] (ExtendedToStreamDecorator(StreamFailFast(callback)): the stream target is itself a StreamFailFast, its callback is counted)
         | [fsink late B f] (f in py26/twisted: a recording result of that flavour with the instance attribute failfast = B, assigned at once (late false) or after the whole graph is built (late true))
         | [tfr [etod s]] | [multi [etod s] ...] | [e2s [etod s]]
@@ -454,10 +454,48 @@ class Graph:
         self.nodes = []          # (path, object) of every node
         self.pending = []        # (object, value): failfast attributes to assign once everything is built
         self.cbs = []            # one-element counters: calls of the callback of every StreamFailFast used as stream target (pre-order)
+        self.shared_args, self.scrambles = {}, 0
         self.root = self.build(shape, ())
+        self.scramble_tagger_args()
         for o, b in self.pending:
             o.failfast = b
         self.tests = {}
+
+    def tagger_args(self, s):
+        """realisation hint [container, shared] as fifth component of a tagger shape: how `new_tags` / `gone_tags` are supplied - a
+        set / frozenset / list / tuple / one-shot generator; with `shared` the mutable containers are ONE object per stack and
+        argument position, refilled for every Tagger that is built from it, and refilled with other tags once the stack stands
+        and after every stopTest.  A Tagger tags by the value its arguments had when it was constructed."""
+        new, gone = [tagname(i) for i in s[1]], [tagname(i) for i in s[2]]
+        kind, shared = (s[4] if len(s) > 4 else ['set', 0])
+        out = []
+        for pos, tags in enumerate((new, gone)):
+            if kind == 'frozenset':
+                a = frozenset(tags)
+            elif kind == 'tuple':
+                a = tuple(tags)
+            elif kind == 'gen':
+                a = (t for t in list(tags))
+            elif kind == 'list':
+                a = self.shared_args.setdefault(('list', pos), []) if shared else []
+                a[:] = tags
+            else:
+                a = self.shared_args.setdefault(('set', pos), set()) if shared else set()
+                a.clear()
+                a.update(tags)
+            out.append(a)
+        return out
+
+    def scramble_tagger_args(self):
+        """the caller goes on using the containers it built the Taggers from"""
+        self.scrambles += 1
+        for (kind, pos), a in self.shared_args.items():
+            other = [tagname((self.scrambles + pos + i) % 4) for i in range(1 + self.scrambles % 2)]
+            if kind == 'list':
+                a[:] = other
+            else:
+                a.clear()
+                a.update(other)
 
     def target(self, s, path):
         assert s[0] == 'etod', s
@@ -488,7 +526,8 @@ class Graph:
         elif kind == 'deco':
             o = real.TestResultDecorator(self.build(s[1], path + (0,)))
         elif kind == 'tagger':
-            o = real.Tagger(self.build(s[3], path + (0,)), {tagname(i) for i in s[1]}, {tagname(i) for i in s[2]})
+            child = self.build(s[3], path + (0,))
+            o = real.Tagger(child, *self.tagger_args(s))
         elif kind == 'fsink':
             o = {'py26': k['Py26'], 'twisted': k['Twisted']}[s[3]]()
             if s[1]:
@@ -530,6 +569,8 @@ class Graph:
             getattr(r, c)()
         elif c in ('startTest', 'stopTest'):
             getattr(r, c)(self.test(call[1]))
+            if c == 'stopTest' and self.shared_args:
+                self.scramble_tagger_args()
         elif c == 'add':
             m = getattr(r, METHOD[call[1]])
             t, a = self.test(call[2]), call[3]
@@ -709,12 +750,16 @@ def gen_shape(rng, d, leaves=('old', 'ext', 'tt', 'tbt'), inner=('etod', 'deco',
     return ['multi'] + [target() for _ in range(rng.choice([1, 2, 2, 3]))]
 
 
+TAGGER_CONTAINERS = ('set', 'set', 'frozenset', 'list', 'tuple', 'gen', 'gen')
+
+
 def gen_tagger(rng, child):
     """30% of the taggers only remove tags - drawn from the pool the histories use at run level (gen_tags_call)"""
+    hint = [[rng.choice(TAGGER_CONTAINERS), rng.randrange(2)]] if rng.random() < 0.5 else []
     if rng.random() < 0.3:
-        return ['tagger', [], sorted(rng.sample(range(4), rng.choice([1, 1, 2]))), child]
+        return ['tagger', [], sorted(rng.sample(range(4), rng.choice([1, 1, 2]))), child] + hint
     new = gen_tagset(rng, 6)
-    return ['tagger', new, [t for t in gen_tagset(rng, 6) if t not in new], child]
+    return ['tagger', new, [t for t in gen_tagset(rng, 6) if t not in new], child] + hint
 
 
 def shrink_shape(s):
@@ -731,9 +776,11 @@ def shrink_shape(s):
                 yield [k, c]
     if k == 'tagger':
         for c in shrink_shape(s[3]):
-            yield s[:3] + [c]
+            yield s[:3] + [c] + s[4:]
+        if len(s) > 4:
+            yield s[:4]
         if s[1] or s[2]:
-            yield ['tagger', [], [], s[3]]
+            yield ['tagger', [], [], s[3]] + s[4:]
     if k == 'etod' and s[1][0] == 'fsink':
         yield ['etod', ['sink', s[1][3]]]
         if s[1][1]:
